@@ -373,6 +373,32 @@ func (e *Engine) evalAddrOf(st *State, x *ast.UnaryExpr) (Val, error) {
 	if err != nil {
 		return Val{}, err
 	}
+	// &*p is p
+	if st2, ok := ast.Unparen(x.X).(*ast.StarExpr); ok {
+		pv, err := e.eval(st, st2.X)
+		if err != nil {
+			return Val{}, err
+		}
+		e.oblige(st, "safety", "nil-deref("+describe(x.X, e.Fset)+")", x.Pos(), smt.Neq(pv.T, NilV))
+		return Val{pv.T, ty}, nil
+	}
+	// &v of a local variable: one address per variable, different from every
+	// other pointer of the state (nobody else can hold it before it is taken)
+	if id, ok := ast.Unparen(x.X).(*ast.Ident); ok {
+		if obj, ok := e.info().ObjectOf(id).(*types.Var); ok && !obj.IsField() && obj.Parent() != nil && obj.Pkg() != nil && obj.Parent() != obj.Pkg().Scope() {
+			key := "&" + id.Name + "@" + fmt.Sprint(int(obj.Pos()))
+			if a, ok := st.named[key]; ok {
+				st.Assume(smt.Eq(smt.App(smt.V, "select", st.heap, a.T), Box(v.T)))
+				return Val{a.T, ty}, nil
+			}
+			p := e.Fresh("addr", smt.V)
+			st.Assume(smt.Neq(p, NilV))
+			e.noteFresh(st, p)
+			st.named[key] = Val{p, ty}
+			st.Assume(smt.Eq(smt.App(smt.V, "select", st.heap, p), Box(v.T)))
+			return Val{p, ty}, nil
+		}
+	}
 	p := e.Fresh("addr", smt.V)
 	st.Assume(smt.Neq(p, NilV))
 	if _, ok := ast.Unparen(x.X).(*ast.CompositeLit); ok {
@@ -732,6 +758,9 @@ func (e *Engine) noteFresh(st *State, p smt.T) {
 	i := smt.T{S: "i?a", Sort: smt.Int}
 	fld := smt.App(smt.V, "f_get", smt.App(smt.V, "select", st.heap, q), j)
 	st.Assume(smt.Forall([]smt.Bound{{Name: q.S, Sort: smt.V}, {Name: j.S, Sort: smt.Int}}, smt.Neq(fld, p), fld))
+	// ... nor stored as a cell's whole content (a cell of pointer type)
+	cell := smt.App(smt.V, "select", st.heap, q)
+	st.Assume(smt.Forall([]smt.Bound{{Name: q.S, Sort: smt.V}}, smt.Neq(cell, p), cell))
 	el := smt.App(smt.V, "s_at", fld, i)
 	st.Assume(smt.Forall([]smt.Bound{{Name: q.S, Sort: smt.V}, {Name: j.S, Sort: smt.Int}, {Name: i.S, Sort: smt.Int}}, smt.Neq(el, p), el))
 	st.fresh = append(st.fresh, p)
